@@ -74,7 +74,7 @@ def exposes(t, s, builder):
         exp, _ = try_build(sub)
         if exp is None or fp(member) != fp(exp):
             return "getitem-returns-other-schema"
-    for bad in ("nope", E):
+    for bad in ("nope", E, 7, (7,), b"nope"):
         try:
             s[bad]
             return "getitem-accepts-undeclared-key"
@@ -119,6 +119,20 @@ ATOMS = [S("datetime"), S("date"), S("bytes"), S("uuid4"), S("datetime", call(M.
          S("date", call(M.FIX_DATE)), S("uuid4", call(M.FIX_UUID)), S("bytes", call(b"ab")), S("float")]
 
 
+NONSTR = [("dict", ((1, False, INT), (None, True, SX), ((1, 2), False, INT)), False),
+          ("dict", ((0, False, SX), (b"k", True, INT), ("", False, INT), (1, True, SX)), True),
+          ("dict", ((None, False, INT), (-1, True, INT)), False)]
+
+
+def has_nonstr_key(t):
+    if isinstance(t, tuple):
+        if t and t[0] == "dict" and t[1]:
+            if any(not isinstance(k, str) for k, _, _ in t[1]):
+                return True
+        return any(has_nonstr_key(x) for x in t)
+    return False
+
+
 def cases(tier):
     """(label, term) for every combination."""
     D = dict_operands(tier)
@@ -126,6 +140,15 @@ def cases(tier):
         for d2 in D:
             yield "add", ("add", d1, d2)
     for d in D:
+        keys = [k for k, _, _ in d[1]]
+        yield "mkreq", ("mkreq", d, None)
+        for r in range(0, len(keys) + 1):
+            for sub in itertools.combinations(keys, r):
+                yield "mkreq", ("mkreq", d, tuple(sub))
+    # dict schemas keyed by other hashables than str (ints incl. 0, None, a tuple, bytes, "")
+    for d1, d2 in itertools.permutations(NONSTR + [D[5]], 2):
+        yield "add", ("add", d1, d2)
+    for d in NONSTR:
         keys = [k for k, _, _ in d[1]]
         yield "mkreq", ("mkreq", d, None)
         for r in range(0, len(keys) + 1):
@@ -170,6 +193,8 @@ def judge(label, t, tier, acc, rng):
         return [(f"C13|{label}|build-raises:{type(e).__name__}", str(e)[:120])]
     if label in ("add", "mkreq"):
         vals = dict_values(tier)
+        if has_nonstr_key(t):
+            vals = vals[:12] + value_universe(t, 80)[0]
     else:
         vals, _ = value_universe(t, 120)
     found = compare(t, s, vals, acc, rng, label)
